@@ -673,7 +673,8 @@ func c15r3(c *Ctx) {
 	}
 	var curP ssa.Value
 	nZero := 0
-	for _, rc := range p.returnCases(fn) {
+	// the status decision tree may live in an extracted helper: its returns are judged in place
+	for _, rc := range p.mwExpandResult(p.returnCases(fn), 1) {
 		if len(rc.Results) != 3 || !isNilConst(stripConv(rc.Results[2])) {
 			continue
 		}
@@ -699,6 +700,7 @@ func c15r3(c *Ctx) {
 			o.Fail("%s", strings.Join(missing, "; "))
 			continue
 		}
+		P = p.mwThroughParam(P) // inside an extracted helper the phase object is the argument passed to it
 		if ok, why := current(P); !ok {
 			o.Fail("status is not taken from the current phase object: %s", why)
 			continue
